@@ -21,7 +21,7 @@ def run(chk, replay=None):
     def long_line(n, tag):
         vals = ','.join('"v%s%05d"' % (tag, i) for i in range(max(1, (n - 200) // 11)))
         return ('{"t":{"$date":"2020-01-01T00:00:00.000+00:00"},"s":"I","c":"COMMAND","id":51803,"ctx":"conn%s","msg":"Slow query","attr":{"ns":"mydb.users","command":{"find":"users","filter":{"f%s":{"$in":[%s]}},"$db":"mydb"}}}' % (tag, tag, vals)).encode()
-    LIM = streams.line_limit() or (1 << 20)      # measured on the compiled program
+    LIM = min(streams.line_limit() or 200000, 300000)      # measured on the compiled program (capped: longer lines only cost time here; C07 goes to the limit itself)
     longs = [long_line(min(n, LIM - 300), t) for n, t in ((4200, 'a'), (5000, 'b'), (9000, 'c'), (17000, 'd'), (33000, 'e'), (60000, 'f'), (65000, 'g'))] + ([long_line(LIM - 300, 'h')] if LIM > 70000 else [])
     logs += [[longs[0], pool[0], longs[1], longs[2]], [longs[3], longs[4]], [pool[1], longs[5], pool[2], longs[3], longs[1]], [longs[6], pool[0]], [longs[2], b'', longs[2], b'not json', longs[4]], [pool[3], longs[-1]]]
     # families of near-duplicate lines (same planCacheKey / queryHash / ctx, one member different), in both orders and with repetitions
